@@ -255,16 +255,17 @@ void cmi_process_add_awaitable(struct  cmb_process *pp,
  * cmb_process_resume() aimed at an earlier cmb_process_yield() that something
  * else had already ended, or a timer carrying the success code as its signal.
  */
-static bool is_awaiting(const struct cmb_process *pp,
-                        const enum cmi_process_awaitable_type type,
-                        const void *awaitable)
+bool cmi_process_is_awaiting(const struct cmb_process *pp,
+                             const enum cmi_process_awaitable_type type,
+                             const void *awaitable)
 {
     const struct cmi_slist_head *ahead = &(pp->awaits);
     while (ahead->next != NULL) {
         const struct cmi_process_awaitable *awp = cmi_container_of(ahead->next,
                                                    struct cmi_process_awaitable,
                                                    listhead);
-        if ((awp->type == type) && (awp->ptr == awaitable)) {
+        if ((awp->type == type)
+            && ((awaitable == NULL) || (awp->ptr == awaitable))) {
             return true;
         }
 
@@ -272,6 +273,13 @@ static bool is_awaiting(const struct cmb_process *pp,
     }
 
     return false;
+}
+
+static bool is_awaiting(const struct cmb_process *pp,
+                        const enum cmi_process_awaitable_type type,
+                        const void *awaitable)
+{
+    return cmi_process_is_awaiting(pp, type, awaitable);
 }
 
 bool cmi_process_remove_awaitable(struct cmb_process *pp,
@@ -453,9 +461,13 @@ static void wakeup_event_process(void *vp, void *arg)
     cmb_logger_info(stdout, "Wakes %s signal %" PRIi64, pp->name, (int64_t)arg);
 
     /*
-     * The record of what it was waiting for went away when the awaited process
-     * ended, see wake_process_waiters(): that process may be gone by now.
+     * The pointer to what it was waiting for was forgotten when the awaited
+     * process ended, see wake_process_waiters(): that process may be gone by
+     * now. The registration itself goes here, which tells the waiter that this
+     * is its own wakeup call.
      */
+    (void)cmi_process_remove_awaitable(pp, CMI_PROCESS_AWAITABLE_PROCESS, NULL);
+
     struct cmi_coroutine *cp = (struct cmi_coroutine *)pp;
     if (cp->status == CMI_COROUTINE_RUNNING) {
         (void)cmi_coroutine_resume(cp, arg);
@@ -510,23 +522,24 @@ int64_t cmb_process_wait_process(struct cmb_process *awaited)
         do {
             sig = (int64_t)cmi_coroutine_yield(NULL);
         } while ((sig == CMB_PROCESS_SUCCESS)
-                 && is_awaiting(me, CMI_PROCESS_AWAITABLE_PROCESS, awaited));
+                 && is_awaiting(me, CMI_PROCESS_AWAITABLE_PROCESS, NULL));
 
         /*
-         * Possibly much later. If we are still registered as waiting, it was
-         * something else (a timer, a resume, a preemption) that woke us up
-         * while the awaited process is still alive: deregister on both sides.
-         * If not, the awaited process has ended and forgotten about us (do not
-         * touch it, it may no longer exist), but its wakeup call may still be on
-         * its way if something else got to us first in that instant: cancel it,
-         * so that it cannot reach us in whatever we do next.
+         * Possibly much later. If we are still registered as waiting for the
+         * awaited process, it was something else (a timer, an interrupt, a
+         * preemption) that woke us up while it is still alive: deregister on
+         * both sides. If we are registered without it, it has ended and
+         * forgotten about us (do not touch it, it may no longer exist) and its
+         * wakeup call is on its way, but something else got to us first in that
+         * instant: cancel the call, so that it cannot reach us in whatever we
+         * do next. If we are not registered at all, this was the call.
          */
         if (cmi_process_remove_awaitable(me, CMI_PROCESS_AWAITABLE_PROCESS, awaited)) {
             if (!cmi_slist_is_empty(&(awaited->waiters))) {
                 (void)cmi_process_remove_waiter(awaited, me);
             }
         }
-        else if ((sig != CMB_PROCESS_SUCCESS) && (sig != CMB_PROCESS_STOPPED)) {
+        else if (cmi_process_remove_awaitable(me, CMI_PROCESS_AWAITABLE_PROCESS, NULL)) {
             (void)cmb_event_pattern_cancel(wakeup_event_process, me, CMB_ANY_OBJECT);
         }
 
@@ -581,6 +594,26 @@ int64_t cmb_process_wait_event(const uint64_t ev_handle)
     return ret;
 }
 
+/*
+ * forget_awaited_process - The process pp waits for has ended: clear the
+ * pointer to it in the registration, see wake_process_waiters() below.
+ */
+static void forget_awaited_process(struct cmb_process *pp)
+{
+    struct cmi_slist_head *ahead = &(pp->awaits);
+    while (ahead->next != NULL) {
+        struct cmi_process_awaitable *awp = cmi_container_of(ahead->next,
+                                                  struct cmi_process_awaitable,
+                                                  listhead);
+        if (awp->type == CMI_PROCESS_AWAITABLE_PROCESS) {
+            awp->ptr = NULL;
+            return;
+        }
+
+        ahead = ahead->next;
+    }
+}
+
 static void wake_process_waiters(struct cmi_slist_head *waiters,
                                  const int64_t signal)
 {
@@ -599,9 +632,11 @@ static void wake_process_waiters(struct cmi_slist_head *waiters,
         /*
          * The process it waited for is history from now on and may be
          * terminated and destroyed before the wakeup call gets through: the
-         * waiter forgets the pointer to it here, not when it wakes up.
+         * waiter forgets the pointer to it here, not when it wakes up. It
+         * stays registered as waiting (for nobody in particular) until the
+         * wakeup call arrives.
          */
-        (void)cmi_process_remove_awaitable(pp, CMI_PROCESS_AWAITABLE_PROCESS, NULL);
+        forget_awaited_process(pp);
         (void)cmb_event_schedule(wakeup_event_process, pp, (void *)signal,
                                  time, priority);
         cmi_mempool_free(&cmi_process_waitertags, pw);
@@ -727,11 +762,13 @@ void cmi_process_cancel_awaiteds(struct cmb_process *pp)
             }
         }
         else if (pa->type == CMI_PROCESS_AWAITABLE_PROCESS) {
-            /* Waits for a process to end, remove ourselves from the waiter list */
-           cmb_assert_debug(pa->ptr != NULL);
+            /*
+             * Waits for a process to end, remove ourselves from the waiter list.
+             * No pointer if it just ended and our wakeup call is on its way
+             * (cancelled below).
+             */
             struct cmb_process *pw = (struct cmb_process *)pa->ptr;
-            if (!cmi_slist_is_empty(&(pw->waiters))) {
-                /* Empty if it just ended and our wakeup call is on its way (cancelled below) */
+            if ((pw != NULL) && !cmi_slist_is_empty(&(pw->waiters))) {
                 (void)cmi_process_remove_waiter(pw, pp);
             }
         }
